@@ -27,6 +27,10 @@ _norm_cache: Dict[int, str] = {}
 _keep_alive: List[ast.AST] = []
 
 
+_KEEP: list = []
+_ALIAS_TERMS: set = set()
+
+
 def free_names(expr: ast.AST) -> frozenset:
     key = id(expr)
     r = _fn_cache.get(key)
@@ -47,9 +51,65 @@ def is_pure(expr: ast.AST) -> bool:
     return r
 
 
+# Call nodes that resolve only to *observers*: synchronous in-repo functions that write nothing (store predicates such as
+# `exists_processed_node`).  Registered per program by register_observers(); such a call is as good as a pure test between two
+# writes, which is the granularity the fact machinery already works at.
+_OBSERVER_CALLS: set = set()
+_OBSERVERS_DONE: set = set()
+
+
+def register_observers(p: Program) -> None:
+    if id(p) in _OBSERVERS_DONE:
+        return
+    _OBSERVERS_DONE.add(id(p))
+    _KEEP.append(p)
+    from .effects import MUTATORS
+    from .program import FuncEnv
+    verdict: Dict[str, bool] = {}
+
+    def observer(unit, depth: int = 0) -> bool:
+        if unit.fid in verdict:
+            return verdict[unit.fid]
+        verdict[unit.fid] = False               # recursion guard
+        if getattr(unit, 'is_async', False) or depth > 3 or isinstance(unit.node, ast.Lambda):
+            return False
+        env = FuncEnv.of(p, unit)
+        ok = True
+        for n in env.own_nodes():
+            if isinstance(n, (ast.Assign, ast.AugAssign, ast.AnnAssign)):
+                tgts = n.targets if isinstance(n, ast.Assign) else [n.target]
+                if any(isinstance(t, (ast.Attribute, ast.Subscript)) for t in tgts):
+                    ok = False
+            elif isinstance(n, (ast.Delete, ast.Await, ast.Yield, ast.YieldFrom, ast.Global, ast.Nonlocal, ast.Raise)):
+                ok = False
+            elif isinstance(n, ast.Call):
+                if isinstance(n.func, ast.Attribute) and n.func.attr in MUTATORS:
+                    ok = False
+                for t in env.resolve_call(n):
+                    if t[0] == 'func' and not observer(t[1], depth + 1):
+                        ok = False
+                    elif t[0] in ('class', 'unknown', 'proto'):
+                        ok = False
+            if not ok:
+                break
+        verdict[unit.fid] = ok
+        return ok
+
+    for unit in list(p.functions.values()):
+        env = FuncEnv.of(p, unit)
+        for n in env.own_nodes():
+            if isinstance(n, ast.Call) and isinstance(n.func, ast.Attribute):
+                ts = env.resolve_call(n)
+                if ts and all(t[0] == 'func' and observer(t[1]) for t in ts):
+                    _OBSERVER_CALLS.add(id(n))
+                    _KEEP.append(n)
+
+
 def _is_pure(expr: ast.AST) -> bool:
     for n in ast.walk(expr):
         if isinstance(n, ast.Call):
+            if id(n) in _OBSERVER_CALLS:
+                continue
             if not (isinstance(n.func, ast.Name) and n.func.id in _PURE_CALLS):
                 return False
         elif isinstance(n, (ast.Await, ast.Yield, ast.YieldFrom, ast.NamedExpr, ast.Lambda,
@@ -101,6 +161,32 @@ def _is_test_like(e: ast.AST) -> bool:
     if isinstance(e, ast.Call) and isinstance(e.func, ast.Name) and e.func.id in ('isinstance', 'bool', 'callable', 'hasattr'):
         return True
     return False
+
+
+# activations seen by the searches (iid -> Inst): lets a pure test be keyed by its symbolic term, so that the same test in a
+# caller and in an inlined callee (`flag = not store.has(k)` ... callee: `if store.has(k)`) is one fact
+_INST: Dict[int, object] = {}
+_TERM_KEYS: Dict[Tuple[int, int], object] = {}
+
+
+def _term_key(p: Program, expr: ast.AST, iid: int):
+    inst = _INST.get(iid)
+    if inst is None:
+        return None
+    ck = (id(expr), iid)
+    if ck not in _TERM_KEYS:
+        key = None
+        try:
+            params = set(inst.unit.params())
+            if free_names(expr) <= params | {'self', 'cls'}:
+                key = repr(sym.term(p, expr, inst))
+        except Exception:                      # noqa: BLE001 - a term that cannot be built is simply not shared
+            key = None
+        _TERM_KEYS[ck] = key
+        _KEEP.append(expr)
+    return _TERM_KEYS[ck]
+
+
 
 
 class FactOps:
@@ -187,6 +273,11 @@ class FactOps:
             v = self.get(facts, ('t', iid, _norm(expr), free_names(expr)))
             if v is not None:
                 return v
+            tk = _term_key(self.p, expr, iid)
+            if tk is not None:
+                v = self.get(facts, ('T', 0, tk, frozenset()))
+                if v is not None:
+                    return v
         return None
 
     def const_of(self, expr: ast.AST, iid: int, facts: Facts):
@@ -215,7 +306,10 @@ class FactOps:
             if al is not None:
                 facts = self.assume(al.expr, value, iid, facts)
         if is_pure(expr):
-            return self.put(facts, ('t', iid, _norm(expr), free_names(expr)), value)
+            facts = self.put(facts, ('t', iid, _norm(expr), free_names(expr)), value)
+            tk = _term_key(self.p, expr, iid)
+            if tk is not None and tk in _ALIAS_TERMS:
+                facts = self.put(facts, ('T', 0, tk, frozenset()), value)
         return facts
 
     # ---- transfer
@@ -233,6 +327,13 @@ class FactOps:
                     and name not in free_names(value):
                 # `flag = <pure test>`: the flag stands for the test while its operands are not reassigned
                 facts = self.put(facts, ('a', iid, name, free_names(value)), _Alias(value))
+                # the tests a flag stands for are the only ones worth sharing between activations (keeps the state space small)
+                _INST.setdefault(iid, ev.inst)
+                for sub in ast.walk(value):
+                    if is_pure(sub) and not isinstance(sub, (ast.Name, ast.Constant)):
+                        tk = _term_key(self.p, sub, iid)
+                        if tk is not None:
+                            _ALIAS_TERMS.add(tk)
                 known = self.eval3(value, iid, facts)
                 if known is not None:
                     facts = self.put(facts, ('t', iid, name, frozenset([name])), known)
@@ -258,7 +359,7 @@ class FactOps:
             while cur is not None:
                 live.add(cur.iid)
                 cur = cur.parent
-            facts = frozenset((k, v) for k, v in facts if k[1] in live)
+            facts = frozenset((k, v) for k, v in facts if k[1] in live or k[0] == 'T')
             if ev.kind == 'handler' and ev.info.get('name'):
                 facts = self.kill_name(facts, iid, ev.info['name'])
             return facts
@@ -298,6 +399,7 @@ class Search:
                  max_states: int = 400000) -> None:
         self.p = program
         self.g = g
+        register_observers(program)
         self.labels = set(labels) if labels is not None else None
         self.fo = FactOps(program)
         self.max_states = max_states
@@ -339,6 +441,7 @@ class Search:
                     cur = prev[cur]
                 return list(reversed(path)), state, facts
             decided = None
+            _INST.setdefault(ev.inst.iid, ev.inst)
             if ev.kind == 'branch' and ev.info.get('test') is not None:
                 decided = self.fo.eval3(ev.info['test'], ev.inst.iid, facts)
             for m, lab in g.succ.get(node, ()):
